@@ -529,18 +529,63 @@ theorem den_addConnectionRaw (c : ConnSet) (pr : Proto) (ps : PortSet) (pr' : Pr
         simp [hcur, PortSet.copy]
       · simp [h]
 
-theorem wf_addConnection {c : ConnSet} {ps : PortSet} (pr : Proto) (hc : c.WF) (hp : ps.WF)
-    (ha : c.allowAll = true → ps.isEmpty = true) : (c.addConnection pr ps).WF :=
-  wf_checkIfAll (wf_addConnectionRaw pr hc hp ha)
-
-theorem canonical_addConnection {c : ConnSet} {ps : PortSet} (pr : Proto) (hc : c.WF) (hp : ps.WF)
-    (ha : c.allowAll = true → ps.isEmpty = true) : (c.addConnection pr ps).Canonical :=
-  canonical_checkIfAll (wf_addConnectionRaw pr hc hp ha)
-
-theorem den_addConnection (c : ConnSet) (pr : Proto) (ps : PortSet) (pr' : Proto) (p : Int) :
-    (c.addConnection pr ps).den pr' p ↔ c.den pr' p ∨ (pr' = pr ∧ memL ps.ports p) := by
+/-- `AddConnection` is a no-op on the AllowAll form -/
+theorem addConnection_of_allowAll {c : ConnSet} (h : c.allowAll = true) (pr : Proto)
+    (ps : PortSet) : c.addConnection pr ps = c := by
   unfold addConnection
-  rw [den_checkIfAll, den_addConnectionRaw]
+  rw [if_pos h]
+
+theorem addConnection_of_not_allowAll {c : ConnSet} (h : c.allowAll = false) (pr : Proto)
+    (ps : PortSet) : c.addConnection pr ps = (c.addConnectionRaw pr ps).checkIfAll := by
+  unfold addConnection
+  rw [if_neg (by rw [h]; decide)]
+
+theorem addConnection_mk_all (pr : Proto) (ps : PortSet) :
+    (mk' true).addConnection pr ps = mk' true := rfl
+
+theorem wf_addConnection {c : ConnSet} {ps : PortSet} (pr : Proto) (hc : c.WF) (hp : ps.WF) :
+    (c.addConnection pr ps).WF := by
+  cases h : c.allowAll
+  · rw [addConnection_of_not_allowAll h]
+    exact wf_checkIfAll
+      (wf_addConnectionRaw pr hc hp (fun h' => by rw [h] at h'; exact absurd h' (by decide)))
+  · rw [addConnection_of_allowAll h]
+    exact hc
+
+theorem canonical_addConnection {c : ConnSet} {ps : PortSet} (pr : Proto) (hc : c.WF)
+    (hp : ps.WF) : (c.addConnection pr ps).Canonical := by
+  cases h : c.allowAll
+  · rw [addConnection_of_not_allowAll h]
+    exact canonical_checkIfAll
+      (wf_addConnectionRaw pr hc hp (fun h' => by rw [h] at h'; exact absurd h' (by decide)))
+  · rw [addConnection_of_allowAll h]
+    exact ⟨hc, by simp [isAllWithoutAllowAll, h]⟩
+
+/-- exact denotation, no hypothesis: on the AllowAll form nothing is added -/
+theorem den_addConnection_exact (c : ConnSet) (pr : Proto) (ps : PortSet) (pr' : Proto) (p : Int) :
+    (c.addConnection pr ps).den pr' p ↔
+      c.den pr' p ∨ (c.allowAll = false ∧ pr' = pr ∧ memL ps.ports p) := by
+  cases h : c.allowAll
+  · rw [addConnection_of_not_allowAll h, den_checkIfAll, den_addConnectionRaw]
+    simp
+  · rw [addConnection_of_allowAll h]
+    simp
+
+/-- the ports added are inside the port range (`hp`): needed on the AllowAll form only, where the
+receiver is returned unchanged and denotes the legal ports -/
+theorem den_addConnection (c : ConnSet) (pr : Proto) {ps : PortSet} (hp : ps.WF) (pr' : Proto)
+    (p : Int) :
+    (c.addConnection pr ps).den pr' p ↔ c.den pr' p ∨ (pr' = pr ∧ memL ps.ports p) := by
+  rw [den_addConnection_exact]
+  constructor
+  · rintro (h | ⟨_, h⟩)
+    · exact Or.inl h
+    · exact Or.inr h
+  · rintro (h | h)
+    · exact Or.inl h
+    · cases ha : c.allowAll
+      · exact Or.inr ⟨rfl, h⟩
+      · exact Or.inl (Or.inl ⟨ha, hp.range h.2⟩)
 
 /-! ### `union` -/
 
@@ -1157,12 +1202,12 @@ theorem union_eq_all_of_full {c o : ConnSet} (hc : c.WF) (ho : o.WF)
 
 /-- the same for `AddConnection` -/
 theorem addConnection_eq_all_of_full {c : ConnSet} {ps : PortSet} (pr : Proto) (hc : c.WF)
-    (hp : ps.WF) (ha : c.allowAll = true → ps.isEmpty = true)
+    (hp : ps.WF)
     (he : ∀ pr' qs, (c.addConnection pr ps).get pr' = some qs → qs.excluded = [])
     (h : ∀ pr' p, inRange p → c.den pr' p ∨ (pr' = pr ∧ memL ps.ports p)) :
     c.addConnection pr ps = mk' true :=
-  eq_mk_all_of_full (canonical_addConnection pr hc hp ha) he
-    (fun pr' p hp' => (den_addConnection c pr ps pr' p).mpr (h pr' p hp'))
+  eq_mk_all_of_full (canonical_addConnection pr hc hp) he
+    (fun pr' p hp' => (den_addConnection c pr hp pr' p).mpr (h pr' p hp'))
 
 theorem equal_iff_eq (c d : ConnSet) : c.equal d = true ↔ c = d := by
   constructor
